@@ -1,22 +1,31 @@
-"""C10 - gamma -> linear -> gamma is the identity (formula level).
+"""C10 - gamma -> linear -> gamma is the identity within the budget.
 
 The two scalar kernels of each transfer characteristic are extracted from MIR (helpers as
-applications), composed by substitution, and  sup_[0,1] |G(F(x)) - x|  is bounded by interval
-branch and bound with powf/expf evaluated as the ideal functions (A-elem).  This decides
-the pairing clause - the two dispatch tables select mutually inverse formulas with matching
-constants.  NOT decided: the approximation error of the composed polynomial powf's."""
+applications), composed by substitution, and  sup_[0,1] |G(F(x)) - x|  is bounded in two parts:
+ (1) formula level (powf/expf as the ideal functions): interval branch and bound - decides the
+     pairing clause: the two dispatch tables select mutually inverse formulas with matching constants;
+ (2) implementation level: paired interval error propagation through the composition
+     (engine/realerr.py) with the certified local error of powf/expf.
+(1) + (2) < budget is proved for every curve except PQ, whose bound (about 5.8e-4) stays above 5.7e-4:
+for PQ only the formula level is decided."""
 from __future__ import annotations
 from engine.check import Check
 from engine.values import Unsupported
 from engine.ival import I, evaluate, sup_abs_diff
+from engine import realerr
 from .common import *
 from .c14 import STD_CURVES, canon
 from .c16 import curve_kernel
 
 def run(tier):
-    ck = Check('C10', tier, 'proof', 'closed-form extraction of both curve directions from MIR, symbolic composition, interval branch and bound of |G(F(x)) - x| with ideal elementary functions')
+    ck = Check('C10', tier, 'proof', 'closed-form extraction of both curve directions from MIR, symbolic composition, interval branch and bound of |G(F(x)) - x| (formula level) + paired interval error propagation with certified powf/expf error (implementation level)')
     ctx = Ctx('K1')
     cache = {}
+    ecache = {}
+    budgets = {}
+    H = realerr.Helpers(Ctx('K1', 'yuvxyb_math'))
+    # curves whose implementation-level bound is known not to close on the reference tree (reason in DESIGN.md 8.8)
+    NOT_CLOSING = {'PerceptualQuantizer': 'a-priori round-off of the log2 polynomial times |y| = 78.84 (twice) leaves 5.8e-4 > 5.7e-4'}
     for t in STD_CURVES:
         base = f"C10/{t}"
         try:
@@ -43,6 +52,21 @@ def run(tier):
             else:
                 ck.ob(base, 'UNDECIDED', f"formula-level round-trip deviation between {lower:.3g} and {upper:.3g} (x = {arg!r}); budget {bud}")
             ck.sample(dict(curve=t, upper=upper, lower=lower, boxes=n))
+            if key not in ecache:
+                try:
+                    ecache[key] = realerr.sup_error(comp, fx, H, 0.0, 1.0, 0.7 * bud, max_boxes=(3000 if t not in NOT_CLOSING else 1500) if tier == 'quick' else 20000)
+                except Unsupported as ex:
+                    ecache[key] = (float('inf'), 0, None, str(ex))
+            e_up, e_n, e_box, e_msg = ecache[key]
+            ck.count('error_boxes', e_n)
+            total = upper + e_up
+            budgets[t] = dict(formula=upper, implementation=e_up, total=total, budget=bud)
+            if total < bud:
+                ck.ob(base + '/budget', 'PROVED', f"|to_gamma(to_linear(x)) - x| <= {upper:.3g} (formula level) + {e_up:.3g} (rounding, libm, certified powf/expf error; {e_n} boxes) = {total:.4g} < {bud} for every x in [0,1]")
+            elif t in NOT_CLOSING:
+                ck.note(f"budget_not_decided/{t}", f"bound {total:.4g} vs budget {bud}: {NOT_CLOSING[t]}")
+            else:
+                ck.ob(base + '/budget', 'UNDECIDED', f"bound {upper:.3g} + {e_up:.3g} = {total:.4g} does not stay below the budget {bud}" + (f" ({e_msg})" if e_msg else '') + (f"; worst box {e_box}" if e_box else ''))
             from .c03 import real_witness
             w = real_witness(ctx, comp, fx, lambda iv: iv, bud, 129 if tier == 'quick' else 1025)
             if w:
@@ -50,6 +74,8 @@ def run(tier):
         except Unsupported as ex:
             ck.ob(base, 'UNDECIDED', f"analysis lost: {ex}")
     ck.floor('curves', 14)
-    ck.note('not_decided', ['approximation error of the composed powf / expf (whether the real round trip stays within 2.5e-4 / 5.7e-4)'])
-    ck.assumptions += ['A-elem: yuvxyb_math::powf / expf evaluated as the ideal functions', 'host libm within 1 ulp']
+    ck.note('budgets', budgets)
+    ck.note('not_decided', ['PQ round trip within 5.7e-4 at implementation level (formula level decided)'])
+    ck.floor('error_boxes', 1)
+    ck.assumptions += ['A-libm: f32 ln / log10 of the target libm within 1 ulp; sqrt correctly rounded', 'host libm within 1 ulp', 'default build (K1)']
     return ck.finish()
